@@ -15,7 +15,7 @@ import (
 func init() {
 	register(&propDef{
 		id: "C08", level: "other", perCfg: false,
-		explain: "Only narrow necessary conditions of C08 are visible statically; they are decided on the generator's template by the lexical-context walk (E10) and AST rules. B1 tags carry the IDL names: every splice inside a struct tag is the raw TypeField.Name (not a derived form), between `json:\"` and the closing quote, and `,omitempty` is emitted exactly under `field.Type.Kind == TypeMaybe`. B2 every declaration whose value is (de)serialised is tagged: each `var in`/`var out` declaration and each `type X` declaration obtains its type from the type writer with the tagged flag true. B3 kind -> Go type table of the type writer: bool->bool, int->int64, float->float64, string/enum->string, object->json.RawMessage, array->[]T, map->map[string]T, optional->*T, alias->its name, struct->struct{...}, i.e. the varlink JSON mapping under encoding/json. B4 wire names are composed alike at all sibling sites: every method name inside a string literal is `<interface name>.<method name>` (arguments of Send, Upgrade, ReplyMethodNotImplemented) except the dispatcher's case label, which is the bare method name; every error name inside a string literal is `<interface name>.<error name>` (Error(), Dispatch_Error case, ReplyError). B5 dispatcher skeleton: every emitted `call.GetParameters(&in)` is followed in the same fragment by the error test replying InvalidParameter(\"parameters\"), the default arm replies MethodNotFound(methodname), the dummy implementations reply MethodNotImplemented, and the client stubs pass `flags` through to Send. B6 the standard replies are emitted on the library's varlink.Call (the dispatcher's parameter or the explicit embedded member), never on the generated wrapper type whose Reply<Error> methods can shadow them. B7 the library primitives the stubs delegate flag handling to decode each reply into a fresh value and map continues exactly. B10 the emitted receive functions declare the variable they decode a reply into inside the function literal (one fresh value per reply). B11 (= C12.X1) the library's error reply refuses only names without interface part and the reserved interface, so the generated Reply<Error> helpers reach the client. B12 guard/body agreement: an `if len(x.A.Fields) > 0` of the template whose body is built from the sibling member x.B only (inputs vs outputs) is reported. B13 (= C11.N4) the library's receive reports success for every complete non-error frame (the stubs of methods without outputs pass a nil target).",
+		explain: "Only narrow necessary conditions of C08 are visible statically; they are decided on the generator's template by the lexical-context walk (E10) and AST rules. B1 tags carry the IDL names: every splice inside a struct tag is the raw TypeField.Name (not a derived form), between `json:\"` and the closing quote, and `,omitempty` is emitted exactly under `field.Type.Kind == TypeMaybe`. B2 every declaration whose value is (de)serialised is tagged: each `var in`/`var out` declaration and each `type X` declaration obtains its type from the type writer with the tagged flag true. B3 kind -> Go type table of the type writer: bool->bool, int->int64, float->float64, string/enum->string, object->json.RawMessage, array->[]T, map->map[string]T, optional->*T, alias->its name, struct->struct{...}, i.e. the varlink JSON mapping under encoding/json. B4 wire names are composed alike at all sibling sites: every method name inside a string literal is `<interface name>.<method name>` (arguments of Send, Upgrade, ReplyMethodNotImplemented) except the dispatcher's case label, which is the bare method name; every error name inside a string literal is `<interface name>.<error name>` (Error(), Dispatch_Error case, ReplyError). B5 dispatcher skeleton: every emitted `call.GetParameters(&in)` is followed in the same fragment by the error test replying InvalidParameter(\"parameters\"), the default arm replies MethodNotFound(methodname), the dummy implementations reply MethodNotImplemented, and the client stubs pass `flags` through to Send. B6 the standard replies are emitted on the library's varlink.Call (the dispatcher's parameter or the explicit embedded member), never on the generated wrapper type whose Reply<Error> methods can shadow them. B7 the library primitives the stubs delegate flag handling to decode each reply into a fresh value and map continues exactly. B10 the emitted receive functions declare the variable they decode a reply into inside the function literal (one fresh value per reply). B11 (= C12.X1) the library's error reply refuses only names without interface part and the reserved interface, so the generated Reply<Error> helpers reach the client. B12 guard/body agreement: an `if len(x.A.Fields) > 0` of the template whose body is built from the sibling member x.B only (inputs vs outputs) is reported. B13 (= C11.N4) the library's receive reports success for every complete non-error frame (the stubs of methods without outputs pass a nil target). B8 (= C01.R2). B9 emitted error replies pass a parameters value when the error has parameters. B12 also polarity: the guard's sense (`> 0`, `== 0`, negations) agrees with whether the body emits the member's fields. B2 also: explicit conversions name the tagged variant of the type where the value is decoded/encoded (`= (T)(in.X)` forms) and the untagged one where it is handed to user code.",
 		notDec:  "Most of the property: which value reaches which parameter, decoding fidelity, the behaviour of the emitted stubs for all descriptions and values. They live in the emitted program; deciding them needs the generator's output for all descriptions (translation validation), which is a different technique.",
 		trusted: []string{"encoding/json maps Go types to JSON as documented (int64 <-> number, *T/omitempty <-> optional, map[string]T <-> object, RawMessage <-> any value)"},
 		run:     runC08,
